@@ -28,59 +28,59 @@ var c13NodeTypes = []dst.Node{
 }
 
 var c13AstTypes = map[string]ast.Node{
-	"ArrayType": &ast.ArrayType{},
-	"AssignStmt": &ast.AssignStmt{},
-	"BadDecl": &ast.BadDecl{},
-	"BadExpr": &ast.BadExpr{},
-	"BadStmt": &ast.BadStmt{},
-	"BasicLit": &ast.BasicLit{},
-	"BinaryExpr": &ast.BinaryExpr{},
-	"BlockStmt": &ast.BlockStmt{},
-	"BranchStmt": &ast.BranchStmt{},
-	"CallExpr": &ast.CallExpr{},
-	"CaseClause": &ast.CaseClause{},
-	"ChanType": &ast.ChanType{},
-	"CommClause": &ast.CommClause{},
-	"CompositeLit": &ast.CompositeLit{},
-	"DeclStmt": &ast.DeclStmt{},
-	"DeferStmt": &ast.DeferStmt{},
-	"Ellipsis": &ast.Ellipsis{},
-	"EmptyStmt": &ast.EmptyStmt{},
-	"ExprStmt": &ast.ExprStmt{},
-	"Field": &ast.Field{},
-	"FieldList": &ast.FieldList{},
-	"File": &ast.File{},
-	"ForStmt": &ast.ForStmt{},
-	"FuncDecl": &ast.FuncDecl{},
-	"FuncLit": &ast.FuncLit{},
-	"FuncType": &ast.FuncType{},
-	"GenDecl": &ast.GenDecl{},
-	"GoStmt": &ast.GoStmt{},
-	"Ident": &ast.Ident{},
-	"IfStmt": &ast.IfStmt{},
-	"ImportSpec": &ast.ImportSpec{},
-	"IncDecStmt": &ast.IncDecStmt{},
-	"IndexExpr": &ast.IndexExpr{},
-	"IndexListExpr": &ast.IndexListExpr{},
-	"InterfaceType": &ast.InterfaceType{},
-	"KeyValueExpr": &ast.KeyValueExpr{},
-	"LabeledStmt": &ast.LabeledStmt{},
-	"MapType": &ast.MapType{},
-	"ParenExpr": &ast.ParenExpr{},
-	"RangeStmt": &ast.RangeStmt{},
-	"ReturnStmt": &ast.ReturnStmt{},
-	"SelectStmt": &ast.SelectStmt{},
-	"SelectorExpr": &ast.SelectorExpr{},
-	"SendStmt": &ast.SendStmt{},
-	"SliceExpr": &ast.SliceExpr{},
-	"StarExpr": &ast.StarExpr{},
-	"StructType": &ast.StructType{},
-	"SwitchStmt": &ast.SwitchStmt{},
+	"ArrayType":      &ast.ArrayType{},
+	"AssignStmt":     &ast.AssignStmt{},
+	"BadDecl":        &ast.BadDecl{},
+	"BadExpr":        &ast.BadExpr{},
+	"BadStmt":        &ast.BadStmt{},
+	"BasicLit":       &ast.BasicLit{},
+	"BinaryExpr":     &ast.BinaryExpr{},
+	"BlockStmt":      &ast.BlockStmt{},
+	"BranchStmt":     &ast.BranchStmt{},
+	"CallExpr":       &ast.CallExpr{},
+	"CaseClause":     &ast.CaseClause{},
+	"ChanType":       &ast.ChanType{},
+	"CommClause":     &ast.CommClause{},
+	"CompositeLit":   &ast.CompositeLit{},
+	"DeclStmt":       &ast.DeclStmt{},
+	"DeferStmt":      &ast.DeferStmt{},
+	"Ellipsis":       &ast.Ellipsis{},
+	"EmptyStmt":      &ast.EmptyStmt{},
+	"ExprStmt":       &ast.ExprStmt{},
+	"Field":          &ast.Field{},
+	"FieldList":      &ast.FieldList{},
+	"File":           &ast.File{},
+	"ForStmt":        &ast.ForStmt{},
+	"FuncDecl":       &ast.FuncDecl{},
+	"FuncLit":        &ast.FuncLit{},
+	"FuncType":       &ast.FuncType{},
+	"GenDecl":        &ast.GenDecl{},
+	"GoStmt":         &ast.GoStmt{},
+	"Ident":          &ast.Ident{},
+	"IfStmt":         &ast.IfStmt{},
+	"ImportSpec":     &ast.ImportSpec{},
+	"IncDecStmt":     &ast.IncDecStmt{},
+	"IndexExpr":      &ast.IndexExpr{},
+	"IndexListExpr":  &ast.IndexListExpr{},
+	"InterfaceType":  &ast.InterfaceType{},
+	"KeyValueExpr":   &ast.KeyValueExpr{},
+	"LabeledStmt":    &ast.LabeledStmt{},
+	"MapType":        &ast.MapType{},
+	"ParenExpr":      &ast.ParenExpr{},
+	"RangeStmt":      &ast.RangeStmt{},
+	"ReturnStmt":     &ast.ReturnStmt{},
+	"SelectStmt":     &ast.SelectStmt{},
+	"SelectorExpr":   &ast.SelectorExpr{},
+	"SendStmt":       &ast.SendStmt{},
+	"SliceExpr":      &ast.SliceExpr{},
+	"StarExpr":       &ast.StarExpr{},
+	"StructType":     &ast.StructType{},
+	"SwitchStmt":     &ast.SwitchStmt{},
 	"TypeAssertExpr": &ast.TypeAssertExpr{},
-	"TypeSpec": &ast.TypeSpec{},
+	"TypeSpec":       &ast.TypeSpec{},
 	"TypeSwitchStmt": &ast.TypeSwitchStmt{},
-	"UnaryExpr": &ast.UnaryExpr{},
-	"ValueSpec": &ast.ValueSpec{},
+	"UnaryExpr":      &ast.UnaryExpr{},
+	"ValueSpec":      &ast.ValueSpec{},
 }
 
 func c13AstLeaf(t reflect.Type) reflect.Value {
